@@ -235,7 +235,31 @@ def _walks_parent_chain(loop) -> bool:
     return False
 
 
+def limit_slots_rule(ctx: Ctx, rid: str):
+    """A limit given in hours is converted to whole slots by cutting the fraction off (int / floor / //), never by rounding: a limit
+    that is not a whole number of slots may admit fewer slots than its value, not more."""
+    fn = ctx.repo.func("Limits.setLimit")
+    res = local_resolver(fn.node) if False else None
+    n = 0
+    for a in own_nodes(fn):
+        if isinstance(a, (ast.Assign, ast.AnnAssign)) and a.value is not None and "slot" in norm(a.targets[0] if isinstance(a, ast.Assign) else a.target).lower() \
+                and any(isinstance(x, ast.BinOp) and isinstance(x.op, (ast.Div, ast.FloorDiv)) for x in ast.walk(a.value)):
+            calls = {norm(c.func).split(".")[-1] for c in ast.walk(a.value) if isinstance(c, ast.Call)}
+            if not (calls & {"int", "floor", "round", "ceil", "trunc"}) and not any(isinstance(x, ast.BinOp) and isinstance(x.op, ast.FloorDiv) for x in ast.walk(a.value)):
+                continue
+            n += 1
+            up = sorted(calls & {"round", "ceil"})
+            ctx.ob(rid, f"{fn.qual}: {norm(a)[:70]}", (fn, a), not up,
+                   "the fraction of a slot is cut off" if not up else
+                   f"the number of slots is obtained with {', '.join(up)}(): a limit whose value is not a whole number of slots (3.5h at 1h slots) is "
+                   "rounded UP and one slot more than the limit is booked in every period",
+                   key=key_of(rid, fn, None, "hours to slots"))
+    if not n:
+        raise AnchorMissing("Limits.setLimit: conversion of the limit value to slots not found")
+
+
 def run_extra(ctx: Ctx):
+    limit_slots_rule(ctx, "R05.12")
     # ---------------------------------------------------------------- R05.11 every booking is counted against every limit that covers it
     from .c01 import book_effects_rule
     book_effects_rule(ctx, "R05.11", ("own_limit", "parent_limit", "task_limit"))
